@@ -112,7 +112,24 @@ func e3WriteModule(dir string) error {
 				fmt.Fprintf(&tests, "func %s(t *testing.T) { run%s(t, t.Name()) }\n\n", fn, sfx)
 			}
 		}
-		src := strings.NewReplacer("{{FILE}}", file, "{{SFX}}", sfx, "{{TESTS}}", tests.String()).Replace(tf)
+		// functions of the OTHER files, as text inside a raw string and inside a block comment
+		var golden, commented strings.Builder
+		for other, ofns := range e3Files {
+			if other == file {
+				continue
+			}
+			for i, fn := range ofns {
+				if strings.HasPrefix(fn, "Fuzz") {
+					continue
+				}
+				if i%2 == 0 {
+					fmt.Fprintf(&golden, "func %s(t *testing.T) { run(t) }\n", fn)
+				} else {
+					fmt.Fprintf(&commented, "func %s(t *testing.T) { run(t) }\n", fn)
+				}
+			}
+		}
+		src := strings.NewReplacer("{{FILE}}", file, "{{SFX}}", sfx, "{{TESTS}}", tests.String(), "{{GOLDEN}}", golden.String(), "{{COMMENTED}}", commented.String()).Replace(tf)
 		if err := os.WriteFile(filepath.Join(dir, file), []byte(src), 0o644); err != nil {
 			return err
 		}
